@@ -140,6 +140,7 @@ fn tree_json(tr: &Tree) -> serde_json::Value {
 // ---------------------------------------------------------------------------------------
 // inclusion functions
 
+const INCFN_BASE: u64 = 3 * 13 * 16 * 17;
 const FUNCS: &[&str] = &["incbin", "incbinstr", "inchexstr"];
 
 /// enumerated index -> (func, file length, start (15 = absent), len (15 = absent, 16 = huge))
@@ -154,7 +155,14 @@ fn incfn_case(index: u64) -> (usize, usize, usize, usize) {
 }
 
 fn run_incfn(index: u64, ctx: &mut CaseCtx) -> Verdict {
+    // variant 0: lower-case digits; 1: upper-case hexadecimal digits; 2: one character that is no digit of the radix
+    let variant = index / INCFN_BASE;
+    let index = index % INCFN_BASE;
     let (f, flen, start, len) = incfn_case(index);
+    if variant > 0 && (f == 0 || flen == 0) || variant == 1 && f != 2 {
+        ctx.skipped = true; // digit variants apply to the text functions only
+        return Verdict::Pass;
+    }
     if len > 16 {
         ctx.skipped = true;
         return Verdict::Pass;
@@ -169,7 +177,16 @@ fn run_incfn(index: u64, ctx: &mut CaseCtx) -> Verdict {
     let content: Vec<u8> = match f {
         0 => (0..flen).map(|i| 0x10 + i as u8 * 7).collect(),
         1 => (0..flen).map(|i| if (i * 5 + 1) % 3 == 0 { b'1' } else { b'0' }).collect(),
+        _ if variant == 1 => (0..flen).map(|i| b"0123456789ABCDEF"[(i * 7 + 3) % 16]).collect(),
         _ => (0..flen).map(|i| b"0123456789abcdef"[(i * 7 + 3) % 16]).collect(),
+    };
+    let mut content = content;
+    let bad_at = if variant == 2 {
+        let at = (flen * 2) / 3;
+        content[at] = if f == 1 { *[b'2', b'A', b'b', b'9'].get(flen % 4).unwrap() } else { *[b'g', b'G', b'x', b'Z'].get(flen % 4).unwrap() };
+        Some(at)
+    } else {
+        None
     };
     let mut args = "\"data.bin\"".to_string();
     let s = if start == 15 { None } else { Some(start) };
@@ -185,8 +202,11 @@ fn run_incfn(index: u64, ctx: &mut CaseCtx) -> Verdict {
         args.push_str(&format!(", {}", if l == usize::MAX { "0xffff_ffff_ffff_ffff".to_string() } else { l.to_string() }));
     }
     let src = format!("#d {}({})\n", func, args);
-    ctx.hash = crate::engine::mix(index, 0xc14);
+    ctx.hash = crate::engine::mix(index + variant * INCFN_BASE, 0xc14);
     ctx.label(format!("fn:{}", func));
+    if variant > 0 {
+        ctx.label(["", "digits:upper-case", "digits:one-non-digit"][variant as usize]);
+    }
     ctx.render(|| json!({"source": src, "data_file_length": flen}));
     let mut fs = MemFs::new();
     fs.add("main.asm", src.as_bytes().to_vec());
@@ -197,7 +217,11 @@ fn run_incfn(index: u64, ctx: &mut CaseCtx) -> Verdict {
     let s0 = s.unwrap_or(0);
     let l0 = l.unwrap_or_else(|| flen.saturating_sub(s0));
     let end = s0.checked_add(l0);
-    let expect: Option<Result<Vec<bool>, ()>> = if flen == 0 || l0 == 0 || s0 >= flen && l.is_none() {
+    let bad_in_range = bad_at.map(|b| b >= s0 && end.map(|e| b < e).unwrap_or(true)).unwrap_or(false);
+    let expect: Option<Result<Vec<bool>, ()>> = if bad_at.is_some() {
+        // a non-digit inside the requested range cannot be returned as a digit; outside the range nothing is asserted
+        if bad_in_range && l0 > 0 { Some(Err(())) } else { None }
+    } else if flen == 0 || l0 == 0 || s0 >= flen && l.is_none() {
         None // empty file, empty range, start at the end: not asserted
     } else if end.map(|e| e <= flen).unwrap_or(false) {
         let mut bits = Vec::new();
@@ -205,7 +229,7 @@ fn run_incfn(index: u64, ctx: &mut CaseCtx) -> Verdict {
             let v = match f {
                 0 => content[i] as u32,
                 1 => (content[i] - b'0') as u32,
-                _ => (content[i] as char).to_digit(16).unwrap(),
+                _ => (content[i] as char).to_digit(16).unwrap(), // upper- and lower-case digits alike
             };
             for k in (0..bits_per).rev() {
                 bits.push((v >> k) & 1 == 1);
@@ -228,6 +252,10 @@ fn run_incfn(index: u64, ctx: &mut CaseCtx) -> Verdict {
             }
         }
         (Some(Ok(_)), AsmOutcome::Err(m)) => Some((format!("{}|valid-range-rejected", func), format!("`{}` on a file of {} units: {}", src.trim(), flen, sut::first_error_text(m)))),
+        (Some(Err(())), AsmOutcome::Ok(ok)) if bad_at.is_some() => Some((
+            format!("{}|non-digit-accepted", func),
+            format!("`{}` on a file holding `{}`: the character at {} is no digit of this radix but the call gave {}", src.trim(), String::from_utf8_lossy(&content), bad_at.unwrap(), sut::bits_hex(&ok.bits)),
+        )),
         (Some(Err(())), AsmOutcome::Ok(ok)) => Some((
             format!("{}|range-past-end-accepted", func),
             format!("`{}` on a file of {} units reaches past its end but gave {} bits {}", src.trim(), flen, ok.bits.len(), sut::bits_hex(&ok.bits)),
@@ -371,7 +399,7 @@ impl Property for C14 {
         true // an inclusion cycle that is not detected ends in a stack overflow / memory exhaustion
     }
     fn enumerated(&self, _tier: Tier) -> u64 {
-        3 * 13 * 16 * 17
+        3 * INCFN_BASE
     }
     fn run_enumerated(&self, index: u64, ctx: &mut CaseCtx) -> Verdict {
         run_incfn(index, ctx)
